@@ -388,9 +388,8 @@ func (w *worker[T, JobType]) goRemoveIdleWorkers() {
 			nodes := w.pool.NodeSlice()
 			// If we have more nodes than our target, close the excess ones
 			for _, node := range nodes[targetIdleWorkers:] {
-				if node.Value.GetLastUsed().Add(interval).Before(time.Now()) &&
-					!(node.Next() == nil && node.Prev() == nil) { // if both nil, it means the node is not in the list and not idle
-					w.pool.Remove(node)
+				// Remove reports false if the node is no longer in the idle list (a dispatcher has taken it meanwhile)
+				if node.Value.GetLastUsed().Add(interval).Before(time.Now()) && w.pool.Remove(node) {
 					node.Value.Stop()
 					w.pool.Cache.Put(node)
 				}
